@@ -66,6 +66,13 @@ func ParseReadServerIDRequestTCP(data []byte) (*ReadServerIDRequestTCP, error) {
 	if err != nil {
 		return nil, err
 	}
+	if len(data) < 8 {
+		tmpErr := NewErrorParseTCP(ErrIllegalDataValue, "received data length too short to be valid packet")
+		tmpErr.Packet.TransactionID = header.TransactionID
+		tmpErr.Packet.UnitID = data[6]
+		tmpErr.Packet.Function = FunctionReadServerID
+		return nil, tmpErr
+	}
 	unitID := data[6]
 	if data[7] != FunctionReadServerID {
 		tmpErr := NewErrorParseTCP(ErrIllegalFunction, "received function code in packet is not 0x11")
